@@ -4,7 +4,7 @@ import pktgen
 
 SLICE = "REPARSE (Packet::parse, then build_bytes_vec / build_bytes_vec_compressed of the parsed value, then Packet::parse of each)"
 RULE = ("parser-accepted inputs: reference-encoded messages over all types with arbitrary non-canonical compression, unknown "
-        "types, empty RDATA, OPT at any additional position, every header word family (all opcodes x rcodes), plus the accepted "
+        "types, empty RDATA, OPT at any additional position, two and three OPT records (also outside the additional section), every header word family (all opcodes x rcodes), plus the accepted "
         "outputs of the malformation generator. non-trivial = input accepted; distinct = distinct canonical outputs")
 KNOWN_KEYS = {"reserved-rcode-or-opcode": "Reserved opcode/rcode re-serialised as 6 / (17 & 0xF)"}
 
@@ -24,6 +24,20 @@ def cases(rng, tier):
     for p in pktgen.big_packets(rng, 3 if tier == "quick" else 12) + pktgen.straddle_packets(rng, (1, 5, 6, 11)):
         b, _ = dns.encode_marked(p, rng, 0)
         out.append("REPARSE " + b.hex())
+    # two (or three) OPT records in one message: the first of the additional section is lifted into the header data,
+    # the others stay where they are - in the additional section or, illegally but accepted, in another section
+    def opt_rr(udp, ext, ver, flags, opts=b""):
+        return b"\x00\x00\x29" + udp.to_bytes(2, "big") + bytes([ext, ver]) + flags.to_bytes(2, "big") + len(opts).to_bytes(2, "big") + opts
+    a_rr = b"\x01a\x00\x00\x01\x00\x01\x00\x00\x00\x78\x00\x04\x0a\x00\x00\x01"
+    for (o1, o2) in (((1232, 0, 0, 0), (512, 1, 0, 0x8000)), ((4096, 1, 0, 0), (1232, 0, 0, 0)), ((512, 0, 3, 0), (512, 0, 3, 0)),
+                     ((65535, 0, 0, 0x8000), (0, 255, 255, 0xffff))):
+        r1, r2 = opt_rr(*o1), opt_rr(*o2, opts=b"\x00\x0a\x00\x02\xab\xcd")
+        for adds in ([r1, r2], [a_rr, r1, r2], [r1, a_rr, r2], [r1, r2, a_rr], [a_rr, r1, a_rr, r2, a_rr], [r1, r2, r1]):
+            hdr = b"\x00\x07\x81\x80\x00\x00\x00\x00\x00\x00" + len(adds).to_bytes(2, "big")
+            out.append("REPARSE " + (hdr + b"".join(adds)).hex())
+        # an OPT record in the answer / authority section as well as one in the additional section
+        hdr = b"\x00\x07\x81\x80\x00\x00\x00\x01\x00\x01\x00\x02"
+        out.append("REPARSE " + (hdr + r2 + r1 + a_rr + r1).hex())
     # every opcode x rcode nibble, with and without OPT (extended rcode)
     for op in range(16):
         for rc in range(16):
